@@ -61,7 +61,7 @@ use crate::mqtt::packet::ResponsePacket;
 use crate::mqtt::packet::{Property, TopicAliasRecv, TopicAliasSend};
 use crate::mqtt::prelude::GenericPacketTrait;
 use crate::mqtt::result_code::{
-    ConnectReasonCode, ConnectReturnCode, DisconnectReasonCode, MqttError, PubrecReasonCode,
+    ConnectReasonCode, ConnectReturnCode, DisconnectReasonCode, MqttError,
 };
 
 /// MQTT protocol maximum packet size limit
@@ -3246,7 +3246,9 @@ where
                 if self.pid_pubrec.remove(&packet_id) {
                     self.store.erase(ResponsePacket::V5_0Pubrec, packet_id);
                     let reason_code = packet.reason_code();
-                    if reason_code.is_none() || reason_code.unwrap() == PubrecReasonCode::Success {
+                    // Every reason code below 0x80 (Success, No matching subscribers) continues the
+                    // exchange with PUBREL; only a failure code ends it [MQTT-4.3.3-4]
+                    if reason_code.is_none() || !reason_code.unwrap().is_failure() {
                         // From now on the exchange waits for PUBCOMP (its PUBREL may be sent later).
                         self.pid_pubcomp.insert(packet_id);
                         if self.auto_pub_response && self.status == ConnectionStatus::Connected {
